@@ -267,7 +267,7 @@ def checkCredentials (cfg : Cfg) (c : Conn) (s : Sasl) (p : Payload) : Conn :=
 /-- `onSasl2Authenticated` -/
 def sasl2Authenticated (fresh : List Char) (c : Conn) (pre : List COut) : CRes :=
   match c.s2req with
-  | none => ubRes c
+  | none => { conn := (ubRes c).conn, outs := pre ++ [.ub] }
   | some true =>
     let c1 := { c with resource := fresh, jid := withRes c.jid fresh, s2req := none }
     { conn := c1, outs := pre ++ [.send (.success2 c1.jid true), .bound, .send (featuresOf c1)], used := true }
@@ -298,6 +298,12 @@ def authStep (cfg : Cfg) (c : Conn) (v2 : Bool) (mech : List Char) (p : Payload)
     | .challenge ch => { conn := c1, outs := [.send (.chal v2 ch)] }
     | _ => failClose c1 v2 (if v2 then .notAuthorized else .none)
 
+/-- `d->jid = user@domain` after a successful exchange, then `<success/>` (SASL) or `onSasl2Authenticated` -/
+def authSuccess (fresh : List Char) (c : Conn) (j : List Char) (v2 : Bool) : CRes :=
+  let c2 := { c with jid := j }
+  if v2 then sasl2Authenticated fresh c2 [.authed j]
+  else { conn := c2, outs := [.authed j, .send .success1] }
+
 /-- `<response/>` (either namespace) -/
 def responseStep (cfg : Cfg) (fresh : List Char) (c : Conn) (v2 : Bool) (p : Payload) : CRes :=
   match c.sasl with
@@ -307,43 +313,41 @@ def responseStep (cfg : Cfg) (fresh : List Char) (c : Conn) (v2 : Bool) (p : Pay
     let c1 := { c with sasl := some r.1 }
     match r.2 with
     | .inputNeeded => { conn := checkCredentials cfg c1 r.1 p }
-    | .succeeded =>
-      let j := mkBare r.1.user cfg.domain
-      let c2 := { c1 with jid := j }
-      if v2 then sasl2Authenticated fresh c2 [.authed j]
-      else { conn := c2, outs := [.authed j, .send .success1] }
+    | .succeeded => authSuccess fresh c1 (mkBare r.1.user cfg.domain) v2
     | _ => failClose c1 v2 (if v2 then .notAuthorized else .none)
 
-/-- `onPasswordReply` / `onDigestReply` for the `i`-th outstanding reply -/
+/-- `onPasswordReply`.  NB: the user name is read from the *current* SASL object `s`, not from the request. -/
+def pwReply (cfg : Cfg) (fresh : List Char) (c0 : Conn) (s : Sasl) : CheckRes → CRes
+  | .ok => authSuccess fresh c0 (mkBare s.user cfg.domain) c0.v2
+  | .bad => failClose c0 c0.v2 .notAuthorized
+  | .temp => failClose c0 c0.v2 .temporaryAuthFailure
+
+/-- second half of `onDigestReply`: `setPasswordDigest`, then `respond(__sasl_raw)` on the current object -/
+def dgVerify (c0 : Conn) (s : Sasl) (d : Option (List Char)) (u sec : List Char) : CRes :=
+  let r := Sasl.respond { s with digest := d } (.dresp u sec true)
+  let c1 := { c0 with sasl := some r.1 }
+  match r.2 with
+  | .challenge ch => { conn := c1, outs := [.send (.chal c0.v2 ch)] }
+  | _ => failClose c1 c0.v2 .notAuthorized
+
+/-- `onDigestReply` (an authorization error is not looked at: the digest is simply empty) -/
+def dgReply (c0 : Conn) (s : Sasl) (u sec : List Char) : DigRes → CRes
+  | .temp => failClose c0 c0.v2 .temporaryAuthFailure
+  | .digest d => dgVerify c0 s (some d) u sec
+  | .nouser => dgVerify c0 s none u sec
+
+/-- the checker finishes the `i`-th outstanding reply -/
 def deliverReply (cfg : Cfg) (fresh : List Char) (c : Conn) (i : Nat) : CRes :=
   match c.pending[i]? with
   | none => idle c
   | some pd =>
     let c0 := { c with pending := c.pending.eraseIdx i }
-    match c0.sasl with
+    match c.sasl with
     | none => ubRes c0
     | some s =>
       match pd with
-      | .pw res =>
-        match res with
-        | .ok =>
-          -- NB: the user name is read from the *current* SASL object, not from the request
-          let j := mkBare s.user cfg.domain
-          let c1 := { c0 with jid := j }
-          if c0.v2 then sasl2Authenticated fresh c1 [.authed j]
-          else { conn := c1, outs := [.authed j, .send .success1] }
-        | .bad => failClose c0 c0.v2 .notAuthorized
-        | .temp => failClose c0 c0.v2 .temporaryAuthFailure
-      | .dg res u sec =>
-        match res with
-        | .temp => failClose c0 c0.v2 .temporaryAuthFailure
-        | _ =>
-          let d := match res with | .digest d => some d | _ => none
-          let r := Sasl.respond { s with digest := d } (.dresp u sec true)
-          let c1 := { c0 with sasl := some r.1 }
-          match r.2 with
-          | .challenge ch => { conn := c1, outs := [.send (.chal c0.v2 ch)] }
-          | _ => failClose c1 c0.v2 .notAuthorized
+      | .pw res => pwReply cfg fresh c0 s res
+      | .dg res u sec => dgReply c0 s u sec res
 
 /-- the `from` the server stamps on a stanza that carries none -/
 def stampFrom (c : Conn) (st : Stanza) : List Char :=
@@ -367,34 +371,30 @@ def bindStep (fresh : List Char) (c : Conn) (res : List Char) : CRes :=
   let c1 := { c with resource := r, jid := withRes c.jid r }
   { conn := c1, outs := [.send (.bindResult c1.jid), .bound], used := res = [] }
 
-/-- everything that arrives after a stream header, except another header -/
-def elemStep (cfg : Cfg) (fresh : List Char) (c : Conn) : Ev → CRes
-  | .auth v2 mech p bind => authStep cfg c v2 mech p bind
-  | .response v2 p => responseStep cfg fresh c v2 p
-  | .abort v2 =>
-    if v2 then { conn := { c with s2req := none }, outs := [.send (.failure true .aborted)] } else idle c
-  | .closeStream => disconnect c []
-  | .bind res =>
-    if cfg.fixPreauth ∧ c.jid = [] then disconnect c [.send (.streamError .streamNotAuthorized)]
-    else bindStep fresh c res
-  | .session =>
-    if cfg.fixPreauth ∧ c.jid = [] then disconnect c [.send (.streamError .streamNotAuthorized)]
-    else { conn := c, outs := [.send (.sessionResult c.jid)] }
-  | .stanza st =>
-    if cfg.fixPreauth ∧ c.jid = [] then disconnect c [.send (.streamError .streamNotAuthorized)]
-    else clientStanza cfg c st
-  | .openStream _ => idle c
-  | .deliver _ => idle c
+/-- `jabber:client` elements: with fixes/C16-preauth.diff an unauthenticated connection gets a
+`not-authorized` stream error instead -/
+def clientGate (cfg : Cfg) (c : Conn) (r : CRes) : CRes :=
+  if cfg.fixPreauth ∧ c.jid = [] then disconnect c [.send (.streamError .streamNotAuthorized)] else r
+
+/-- XmppSocket: nothing parses before a stream header, and once garbage is buffered nothing ever does -/
+def gate (c : Conn) (r : CRes) : CRes :=
+  if c.stuck then idle c
+  else if c.opened then r
+  else idle { c with stuck := true }
 
 def connStep (cfg : Cfg) (fresh : List Char) (c : Conn) (ev : Ev) : CRes :=
   if c.closed then idle c else
   match ev with
   | .deliver i => deliverReply cfg fresh c i
   | .openStream to => if c.stuck then idle c else openStream cfg c to
-  | ev =>
-    if c.stuck then idle c
-    else if c.opened then elemStep cfg fresh c ev
-    else idle { c with stuck := true }
+  | .auth v2 mech p bind => gate c (authStep cfg c v2 mech p bind)
+  | .response v2 p => gate c (responseStep cfg fresh c v2 p)
+  | .abort v2 =>
+    gate c (if v2 then { conn := { c with s2req := none }, outs := [.send (.failure true .aborted)] } else idle c)
+  | .closeStream => gate c (disconnect c [])
+  | .bind res => gate c (clientGate cfg c (bindStep fresh c res))
+  | .session => gate c (clientGate cfg c { conn := c, outs := [.send (.sessionResult c.jid)] })
+  | .stanza st => gate c (clientGate cfg c (clientStanza cfg c st))
 
 /-! ### the server: routing tables and the default stanza handler (no extensions, no S2S) -/
 
